@@ -77,7 +77,26 @@ fn load(m: &fx::Model, l: &fx::Layout, tag: &str) -> Result<Option<FibexMetadata
     guard(|| gather_fibex_data(FibexConfig { fibex_file_paths: paths })).map_err(|p| Violation::from_panic("gather_fibex_data on a generated model", &p))
 }
 
+/// `<MESSAGE_INFO/>` may be read as "no value" or as the empty string: the statement does not say; both are accepted
+fn normalise(m: &Option<FibexMetadata>) -> Option<FibexMetadata> {
+    let fix = |f: &dlt_core::fibex::FrameMetadata| {
+        let mut f = f.clone();
+        if f.message_type.as_deref() == Some("") {
+            f.message_type = None;
+        }
+        if f.message_info.as_deref() == Some("") {
+            f.message_info = None;
+        }
+        f
+    };
+    m.as_ref().map(|m| FibexMetadata {
+        frame_map_with_key: m.frame_map_with_key.iter().map(|(k, v)| (k.clone(), fix(v))).collect(),
+        frame_map: m.frame_map.iter().map(|(k, v)| (k.clone(), fix(v))).collect(),
+    })
+}
+
 fn diff(got: &Option<FibexMetadata>, want: &Option<FibexMetadata>) -> Option<(String, String)> {
+    let got = &normalise(got);
     match (got, want) {
         (None, None) => None,
         (Some(_), None) => Some(("loaded-despite-dangling-pdu-ref".into(), "loading succeeded although a frame refers to an unknown PDU".into())),
@@ -125,7 +144,7 @@ pub fn check(c: &Case) -> CheckResult {
     }
     // metamorphic: another layout / partition of the same model gives an equal result
     let got2 = load(&c.model, &c.layout2, "b")?;
-    if got2 != got {
+    if normalise(&got2) != normalise(&got) {
         let (sig, msg) = diff(&got2, &want).unwrap_or(("layout".into(), "second layout differs".into()));
         return Err(viol!(format!("fibex:layout-dependence:{}", sig), "a second layout of the same model loads differently: {}\n  layout2={:?}", msg, c.layout2));
     }
@@ -143,7 +162,16 @@ pub fn check(c: &Case) -> CheckResult {
             let mut exts: Vec<(String, String)> = c.model.frames.iter().filter_map(|f| f.ext.as_ref().and_then(|e| Some((e.application_id.clone()?, e.context_id.clone()?)))).collect();
             exts.push(("NOAPP".into(), "NOCTX".into()));
             for (app, ctx) in exts {
-                let eh = ExtendedHeader { verbose: false, argument_count: 0, message_type: MessageType::Log(LogLevel::Info), application_id: app.clone(), context_id: ctx.clone() };
+                // the lookup uses the ids of the extended header only: its other fields vary and must not matter
+                let variety = (id as usize).wrapping_add(app.len() * 7 + ctx.len() * 3);
+                let message_type = match variety % 5 {
+                    0 => MessageType::Log(LogLevel::Info),
+                    1 => MessageType::Control(dlt_core::dlt::ControlType::Request),
+                    2 => MessageType::NetworkTrace(dlt_core::dlt::NetworkTraceType::Can),
+                    3 => MessageType::ApplicationTrace(dlt_core::dlt::ApplicationTraceType::State),
+                    _ => MessageType::Unknown((5, 3)),
+                };
+                let eh = ExtendedHeader { verbose: variety % 2 == 1, argument_count: (variety % 4) as u8, message_type, application_id: app.clone(), context_id: ctx.clone() };
                 let r = guard(|| extract_metadata(model, id, Some(&eh)).cloned()).map_err(|p| Violation::from_panic("extract_metadata", &p))?;
                 let want = want.as_ref().and_then(|w| w.frame_map_with_key.iter().find(|(k, _)| k.frame_id == text && k.app_id == app && k.context_id == ctx).map(|(_, v)| v.clone()));
                 if r != want {
